@@ -245,4 +245,100 @@ def checkMinimized (t t' : Tables) (acts : Array Int) (nInputs : Nat) : Except S
     | _, _ => throw "missing final state"
   throw "simulation certificate rejected"
 
+/-! ### decidable side conditions of the run-level theorems (C05/C06)
+
+`checkOptimized`/`simCheck` compare decoded cells; lifting them to whole runs of the runtime model
+needs a few structural facts about the tables that every `lalr.Compile` output satisfies. They are
+evaluated by the drivers on every real table next to the check itself. -/
+
+/-- the `(terminal, action)` list starting at `i` ends with `(negative, -2)`: the default of a
+lookahead state is "error" (`c.out.Lalr = append(c.out.Lalr, -1, -2)`) -/
+def lalrEndOk (l : Array Int) : Nat → Int → Bool
+  | 0, _ => false
+  | fuel + 1, i =>
+    match geti l i with
+    | none => false
+    | some term => if term < 0 then geti l (i + 1) == some (-2) else lalrEndOk l fuel (i + 2)
+
+/-- structural sanity of the default encoding: EOI is a terminal, entry states exist, `FromTo`
+holds state numbers, left-hand sides are nonterminals, lookahead lists end with the error default -/
+def tablesWf (t : Tables) : Bool :=
+  decide (0 < t.nTerms) && decide (t.nTerms ≤ t.nSyms) &&
+  decide (t.finalStates.size ≤ t.nStates) &&
+  t.fromTo.all (fun v => decide (0 ≤ v) && decide (v < (t.nStates : Int))) &&
+  t.ruleSymbol.all (fun x => decide ((t.nTerms : Int) ≤ x) && decide (x < (t.nSyms : Int))) &&
+  (List.range t.nStates).all fun s =>
+    match geti t.action s with
+    | some a => decide (a ≥ -2) || lalrEndOk t.lalr (t.lalr.size + 1) (-a - 3)
+    | none => true
+
+/-- a state of the displacement encoding that does not consult the next token never shifts
+(`Optimize` sets `Action[s] = Base` only when all terminals agree, and two terminals never lead to
+the same state) -/
+def noBlindShift (t : Tables) : Bool :=
+  (List.range t.nStates).all fun s =>
+    match geti t.oAction s, geti t.oDefAct s with
+    | some a, some d => decide (a > t.oBase) || decide (d ≥ -1)
+    | _, _ => true
+
+/-- token symbols are terminals -/
+def inputOk (t : Tables) (inp : Input) : Bool :=
+  inp.toks.all fun tk => decide (0 ≤ tk.sym) && decide (tk.sym < (t.nTerms : Int))
+
+/-- Certificate that a reduction never finds the goto entry missing (`gotoState = -1`): `preds`
+lists, per state, all states with a transition into it; for every reduction `r` a state may
+perform, every state `|r|` transitions back has a goto on the left-hand side. -/
+def predsOk (t : Tables) (preds : Array (List Nat)) : Bool :=
+  (List.range t.nStates).all fun p => (List.range t.nSyms).all fun x =>
+    match gotoDefault t p x with
+    | some q => decide (q < 0) || (preds.getD q.toNat []).contains p
+    | none => true
+
+def backAll (preds : Array (List Nat)) (P : Nat → Bool) : Nat → Nat → Bool
+  | 0, p => P p
+  | n + 1, q => (preds.getD q []).all fun p => backAll preds P n p
+
+def ruleGotoOk (t : Tables) (preds : Array (List Nat)) (s : Nat) (r : Int) : Bool :=
+  match geti t.ruleLen r, geti t.ruleSymbol r with
+  | some ln, some lhs =>
+    backAll preds (fun p => match gotoDefault t p lhs with
+      | some q => decide (q ≥ 0)
+      | none => true) ln.toNat s
+  | _, _ => true
+
+def gotoClosed (t : Tables) (preds : Array (List Nat)) : Bool :=
+  predsOk t preds &&
+  (List.range t.nStates).all fun s => (List.range t.nTerms).all fun a =>
+    match obsDefault t s a with
+    | .reduce r => ruleGotoOk t preds s r
+    | _ => true
+
+/-- the predecessor lists (untrusted: `predsOk` checks them) -/
+def mkPreds (t : Tables) : Array (List Nat) := Id.run do
+  let mut preds : Array (List Nat) := Array.replicate t.nStates []
+  for p in List.range t.nStates do
+    for x in List.range t.nSyms do
+      match gotoDefault t p x with
+      | some q =>
+        if q ≥ 0 ∧ q.toNat < preds.size ∧ !(preds.getD q.toNat []).contains p then
+          preds := preds.set! q.toNat (p :: preds.getD q.toNat [])
+      | none => pure ()
+  return preds
+
+/-- the minimiser does not touch the rule tables -/
+def sameRules (t t' : Tables) : Bool :=
+  t.ruleLen == t'.ruleLen && t.ruleSymbol == t'.ruleSymbol && t.nTerms == t'.nTerms
+
+/-- trace events of the unminimized and the minimized run correspond: the same token shifted, or
+rules of one class reduced over the same range -/
+def evSim (t : Tables) (acts : Array Int) : Ev → Ev → Bool
+  | .shift s o e, .shift s' o' e' => s == s' && o == o' && e == e'
+  | .reduce r o e, .reduce r' o' e' => ruleClassEq t acts r r' && o == o' && e == e'
+  | _, _ => false
+
+def traceSim (t : Tables) (acts : Array Int) : List Ev → List Ev → Bool
+  | [], [] => true
+  | e :: es, e' :: es' => evSim t acts e e' && traceSim t acts es es'
+  | _, _ => false
+
 end TmVerif.LRCheck
